@@ -149,24 +149,32 @@ class MultiHarness:
             delay_steps = 2
         delay = None if delay_steps is None else 3 * dt
         g = torch.Generator().manual_seed(seed)
-        nconn = 2 if topology == "fan_in" else 1
+        nconn = 1 if topology == "fan_out" else 2
         self.conns = [fac.make_connection("dense", dt, syn="delta", B=B, delay=delay, nin=3, nout=2) for _ in range(nconn)]
         for c in self.conns:
             fac.randomize(c, g, delay_steps=delay_steps, dt=dt)
             c.updater = c.defaultupdater()
-        self.neurons = [ExactNeuron((2,), dt, rest_v=-60.0, thresh_v=-50.0, batch_size=B) for _ in range(3 - nconn)]
+        nneur = {"fan_in": 1, "fan_out": 2, "two_layers": 2}[topology]
+        self.neurons = [ExactNeuron((2,), dt, rest_v=-60.0, thresh_v=-50.0, batch_size=B) for _ in range(nneur)]
         self.neuron = self.neurons[0]
-        self.layer = neural.Biclique([(f"c{i}", c) for i, c in enumerate(self.conns)],
-                                     [(f"n{i}", n) for i, n in enumerate(self.neurons)], combine="sum")
         self.trainer = build_trainer(trainer, {}, batch_reduction, per_cell=True)
-        # fan_in: cells (c0, n0), (c1, n0) share the postsynaptic group; fan_out: cells (c0, n0), (c0, n1) share the
-        # connection (its synapse-side monitors and its updater)
-        self.cellkeys = [("c0", "n0"), ("c1", "n0")] if topology == "fan_in" else [("c0", "n0"), ("c0", "n1")]
+        if topology == "two_layers":
+            # two independent layers trained by ONE trainer: each can be put in eval mode on its own
+            self.layers = [neural.Serial(self.conns[i], self.neurons[i]) for i in range(2)]
+            self.layer = None
+            cells = [ly.cell for ly in self.layers]
+        else:
+            self.layer = neural.Biclique([(f"c{i}", c) for i, c in enumerate(self.conns)],
+                                         [(f"n{i}", n) for i, n in enumerate(self.neurons)], combine="sum")
+            # fan_in: cells (c0, n0), (c1, n0) share the postsynaptic group; fan_out: cells (c0, n0), (c0, n1) share the
+            # connection (its synapse-side monitors and its updater)
+            self.cellkeys = [("c0", "n0"), ("c1", "n0")] if topology == "fan_in" else [("c0", "n0"), ("c0", "n1")]
+            cells = [self.layer.get_cell(*k) for k in self.cellkeys]
         for i, nm in enumerate(("a", "b")):
-            self.trainer.register_cell(nm, self.layer.get_cell(*self.cellkeys[i]), batch_reduction=batch_reduction,
-                                       **trainer_args(trainer, self.hypers[i]))
+            self.trainer.register_cell(nm, cells[i], batch_reduction=batch_reduction, **trainer_args(trainer, self.hypers[i]))
         if dtype is not None:
-            self.layer.to(dtype)
+            for ly in ([self.layer] if self.layer is not None else self.layers):
+                ly.to(dtype)
             self.trainer.to(dtype)
         self.param = "delay" if trainer in LEARNS_DELAY else "weight"
 
@@ -174,8 +182,12 @@ class MultiHarness:
         """pres / posts: one spike tensor per connection / neuron group -> one (pos, neg, applied change) per connection"""
         if not isinstance(posts, (list, tuple)):
             posts = [posts]
-        self.layer({f"c{i}": (p,) for i, p in enumerate(pres)},
-                   neuron_kwargs={f"n{i}": {"override": q} for i, q in enumerate(posts)})
+        if self.layer is None:
+            for ly, p, q in zip(self.layers, pres, posts):
+                ly(p, neuron_kwargs={"override": q})
+        else:
+            self.layer({f"c{i}": (p,) for i, p in enumerate(pres)},
+                       neuron_kwargs={f"n{i}": {"override": q} for i, q in enumerate(posts)})
         if self.name in THREE_FACTOR:
             self.trainer(reward, scale)
         else:
